@@ -172,7 +172,7 @@ def reference_defects(g):
             seen.add(x)
             todo += list(edges.get(x, ()))
         reach[s] = seen
-    if any(s in reach[s] and any(x != s and s in reach.get(x, ()) for x in reach[s]) for s in edges):
+    if any(s in reach[s] for s in edges):       # a self-reference is a cycle too
         defects.add(("cycle", ""))
     targets = [n for k, n in nodes if k == "t"]
     tmap = {lab(x): (k, x) for k, x in nodes}
@@ -276,7 +276,7 @@ def small_graphs(n, outs_mode):
 
 SPELLINGS = ["x", "./x", "a/../x", "x/", "dir::d", "dir::d/", "d/x", "../x", "dir::../../x", "dir::x", "dir::.", "d",
              "dir::d/x", "../d/x", "/abs", "dir::/abs", "x//y", "dir::..", "docker::img", "docker::x", "../s/x", "dir::../s",
-             "dir::./d/../d", "..x", "dir::x/y/.."]
+             "dir::./d/../d", "..x", "dir::x/y/..", "dx", "dir::dx"]
 PKG_PAIRS = [("", ""), ("", "d"), ("d", "d"), ("d", "d/x"), ("a", "a/b"), ("a/b", "a"), ("d", "e")]
 INPUT_SPELLINGS = ["a", "../a", "/a", "a/../../b", "..", "./a", "a/..", "..a", "a/../..", "a/./b", "", ".", "a//b", "../../a", "a/b/../../c", "..."]
 
@@ -658,11 +658,55 @@ def run(ctx):
     cov["findcycle_cycles_reported"] = cyc_found
     cov["evaluations"] += len(creqs)
 
+    # --- unexported path functions and the (memoised) ancestor search, called directly through an overlay export ----
+    freqs = []
+    short = ["".join(t) for n in range(0, 5 if quick else 6) for t in itertools.product("a./", repeat=n)]
+    cleaned = sorted({r["r"] for r in ctx.impl([{"op": "paths.clean", "p": x} for x in short]) or []})
+    for a in cleaned:
+        for b in cleaned:
+            freqs.append({"op": "analysis.pathfn", "fn": "within", "p": a, "d": b})
+            freqs.append({"op": "analysis.pathfn", "fn": "overlap", "p": a, "d": b})
+    for a in rng.sample(short, 60):
+        for b in rng.sample(short, 60):
+            freqs.append({"op": "analysis.pathfn", "fn": "within", "p": a, "d": b})
+    for x in ["".join(t) for n in range(0, 8 if quick else 9) for t in itertools.product("a./", repeat=n)]:
+        freqs.append({"op": "analysis.pathfn", "fn": "escape", "p": x})
+    for ws in ["/", "/w", "/w/s", "/w/s/", "/w//s", "/w/../s", "/w/./s", "/a"]:
+        for pkg in ["", "a", "a/b", "..", "s", "w/s", "/abs", "a/"]:
+            for rel in short[:364] + ["../s/x", "../../w/s/x", "../../../w/s", "a/../../..", "../a/x"]:
+                freqs.append({"op": "analysis.pathfn", "fn": "withinws", "ws": ws, "pkg": pkg, "rel": rel})
+    for pkg in ["", "a", "a/b", "a/", "/r", "..", "."]:
+        for out in short:
+            freqs.append({"op": "analysis.pathfn", "fn": "cleanout", "pkg": pkg, "out": out})
+    fbad = ctx.diff(freqs)
+    if fbad is None:
+        return
+    cov["pathfn_cases"] = len(freqs)
+    areqs = []
+    for _ in range(600 if quick else 8000):
+        n = rng.randint(1, 9)
+        labs = [L(rng.choice(["", "p"]), "v%d" % i) for i in range(n)]
+        cyclic = rng.random() < 0.15
+        nodes = []
+        for i in range(n):
+            deps = [labs[j] for j in range(n) if j != i and (j < i or cyclic) and rng.random() < rng.choice([0.15, 0.3, 0.5])]
+            rng.shuffle(deps)
+            nodes.append({"label": labs[i], "deps": deps})
+        rng.shuffle(nodes)
+        qs = [rng.choice(labs) for _ in range(rng.randint(1, 2 * n))]
+        areqs.append({"op": "analysis.ancestors", "nodes": nodes, "queries": qs})
+        areqs.append({"op": "analysis.ordered", "nodes": nodes, "pairs": [[rng.choice(labs), rng.choice(labs)] for _ in range(rng.randint(1, 3 * n))]})
+    canon_sets = lambda r: {"sets": [sorted((l["pkg"], l["name"]) for l in set_) for set_ in r["sets"]]} if "sets" in r else r
+    abad = ctx.diff(areqs, key=canon_sets)
+    if abad is None:
+        return
+    cov["ancestor_cases"] = len(areqs)
+
     # --- CLI: reject => nothing ran ---------------------------------------------------------------------------------
     cli_smoke(ctx, quick)
 
     # --- correspondence verdict -----------------------------------------------------------------------------------------
-    cov["disagreements"] = len(bad) + len(pbad) + len(cbad)
+    cov["disagreements"] = len(bad) + len(pbad) + len(cbad) + len(fbad) + len(abad)
     if not ctx.violations:
         if bad:
             g, fam, x, y = min(bad, key=lambda t: len(json.dumps(t[0])))
@@ -674,6 +718,16 @@ def run(ctx):
             ctx.violation("model and implementation disagree (correspondence filepath.Clean/Join)",
                           {"kind": "correspondence", "correspondence": "filepath.Clean/Join vs GrogModel.Paths", "request": r, "impl": x, "model": y,
                            "n_disagreements": len(pbad)}, found_input=False)
+        if fbad:
+            r, x, y = min(fbad, key=lambda t: len(json.dumps(t[0])))
+            ctx.violation("model and implementation disagree (correspondence path functions of the analysis package)",
+                          {"kind": "correspondence", "correspondence": "pathWithin/pathsOverlap/pathTriesToEscape/isWithinWorkspace/cleanOutputPath vs GrogModel.Paths",
+                           "request": r, "impl": x, "model": y, "n_disagreements": len(fbad)}, found_input=False)
+        if abad:
+            r, x, y = min(abad, key=lambda t: len(json.dumps(t[0])))
+            ctx.violation("model and implementation disagree (correspondence ancestor sets / ordered test)",
+                          {"kind": "correspondence", "correspondence": "getAncestorSet/targetsAreOrdered (shared memo table) vs GrogModel.Analysis.ancestors/ordered",
+                           "request": r, "impl": x, "model": y, "n_disagreements": len(abad)}, found_input=False)
         if cbad:
             r, x, y = min(cbad, key=lambda t: len(json.dumps(t[0])))
             ctx.violation("model and implementation disagree (correspondence FindCycle)",
